@@ -806,6 +806,9 @@ func (u *Unit) mapLookup(v *HeapView, mt types.Type, ref, key Term) (val Value, 
 	ks, vt := u.mapSorts(mt)
 	dom := u.mapDom(v, mt, ref)
 	present = And(Neq(ref, TNil), Select(dom, key))
+	if isEmptyStruct(vt) {
+		return &StructV{Typ: vt, Zero: true}, present
+	}
 	if isStructType(vt) {
 		u.unsupported("map with struct values " + shortType(mt))
 		return u.freshValue(vt, "mv"), present
@@ -890,6 +893,9 @@ func (u *Unit) mapStore(st *State, mt types.Type, ref, key Term, val Value) {
 	f := u.cardFun(ks)
 	u.ctx.Assert(Implies(st.G, Eq(app(f, SInt, newDom), Ite(Select(oldDom, key), app(f, SInt, oldDom), Arith("+", app(f, SInt, oldDom), TOne)))), "card-insert")
 	u.heapSet(st, domFam, Store(domArr, ref, newDom))
+	if isEmptyStruct(vt) {
+		return
+	}
 	if isStructType(vt) {
 		u.unsupported("map with struct values " + shortType(mt))
 		return
@@ -1065,4 +1071,9 @@ func (u *Unit) execNext(st *State, x *ssa.Next) Value {
 	st.Ghost["visited:"+it.ID] = u.ctx.Named("vis", Ite(okc, Store(vis, k, TTrue), vis))
 	st.Ghost["lastkey:"+it.ID] = k
 	return TupleV{Sc{okc, types.Typ[types.Bool]}, Sc{k, tt.At(1).Type()}, retype(val, tt.At(2).Type())}
+}
+
+func isEmptyStruct(t types.Type) bool {
+	s, ok := t.Underlying().(*types.Struct)
+	return ok && s.NumFields() == 0
 }
